@@ -114,8 +114,9 @@ struct ObjMem {
   int64_t size;
   std::vector<Taint> bytes;
   std::map<int64_t, Val> slots;
+  std::map<int64_t, std::pair<int64_t, int>> ic; // offset -> (constant integer stored there, width in bytes); exact stores only
   Taint all = 0; // 'all' for unknown-size objects
-  bool operator==(const ObjMem &o) const { return size == o.size && bytes == o.bytes && slots == o.slots && all == o.all; }
+  bool operator==(const ObjMem &o) const { return size == o.size && bytes == o.bytes && slots == o.slots && ic == o.ic && all == o.all; }
 };
 typedef std::shared_ptr<const ObjMem> OM;
 struct State {
@@ -162,6 +163,13 @@ static OM joinM(const OM &a, const OM &b) {
       r->slots[kv.first] = kv.second;
     else
       it->second = joinV(it->second, kv.second);
+  }
+  for (auto it = r->ic.begin(); it != r->ic.end();) {
+    auto jt = b->ic.find(it->first);
+    if (jt == b->ic.end() || jt->second != it->second)
+      it = r->ic.erase(it);
+    else
+      ++it;
   }
   return r;
 }
@@ -316,10 +324,29 @@ static Taint readT(State &S, const Val &p, int64_t n) {
   }
   return t;
 }
+static void killIC(ObjMem *m, const Target &tg, int64_t n) {
+  if (m->ic.empty()) return;
+  if (tg.stride == 0 && n >= 0) {
+    for (auto it = m->ic.begin(); it != m->ic.end();) {
+      if (it->first + it->second.second > tg.off && it->first < tg.off + n)
+        it = m->ic.erase(it);
+      else
+        ++it;
+    }
+  } else {
+    for (auto it = m->ic.begin(); it != m->ic.end();) {
+      if (it->first + it->second.second > tg.lo && it->first < tg.hi)
+        it = m->ic.erase(it);
+      else
+        ++it;
+    }
+  }
+}
 static void writeT(State &S, const Val &p, int64_t n, Taint t, bool forceWeak = false) {
   bool strong = !forceWeak && p.pts.size() == 1 && p.pts.begin()->stride == 0 && !objs[p.pts.begin()->obj].summary && n >= 0 && !p.unkPtr;
   for (auto &tg : p.pts) {
     ObjMem *m = mut(S, tg.obj);
+    if (!modelNoWrite) killIC(m, tg, n);
     if (n < 0) {
       int64_t sz = m->bytes.size();
       int64_t lo = std::max<int64_t>(0, tg.stride == 0 ? std::max(tg.off, tg.lo) : tg.lo), hi = std::min<int64_t>(sz, tg.hi);
@@ -414,7 +441,12 @@ static void copyMem(State &S, const Val &dst, const Val &src, int64_t n) { // by
         sl[kv.first - s.off] = kv.second;
       else if (kv.first <= -1000000)
         sl[kv.first] = kv.second;
+    std::map<int64_t, std::pair<int64_t, int>> icl;
+    for (auto &kv : sm->ic)
+      if (kv.first >= s.off && kv.first + kv.second.second <= s.off + n) icl[kv.first - s.off] = kv.second;
     ObjMem *dm = mut(S, d.obj);
+    killIC(dm, d, n);
+    for (auto &kv : icl) dm->ic[d.off + kv.first] = kv.second;
     if (dm->bytes.empty()) {
       Taint a = 0;
       for (auto x : tmp) a = tj(a, x);
@@ -891,7 +923,14 @@ static Val analyze(const Function *F, std::vector<Val> args, State &S, int depth
           r = s;
           r.t = tj(s.t, t);
         }
-        if (p.pts.empty() && !p.isNull) { /* unknown pointer: untracked */
+        if (!LI->getType()->isPointerTy() && LI->getType()->isIntegerTy() && !r.t && p.pts.size() == 1 && p.pts.begin()->stride == 0 && !p.unkPtr &&
+            !objs[p.pts.begin()->obj].summary) {
+          const ObjMem *m = get(cur, p.pts.begin()->obj);
+          auto it = m->ic.find(p.pts.begin()->off);
+          if (it != m->ic.end() && it->second.second == n) {
+            r.hasC = true;
+            r.c = it->second.first;
+          }
         }
       } else if (auto *SI = dyn_cast<StoreInst>(&I)) {
         Val p = getV(fr, SI->getPointerOperand());
@@ -900,6 +939,9 @@ static Val analyze(const Function *F, std::vector<Val> args, State &S, int depth
         int64_t n = typeSize(SI->getValueOperand()->getType());
         writeT(cur, p, n, v.t);
         if (SI->getValueOperand()->getType()->isPointerTy()) writeSlot(cur, p, v);
+        else if (SI->getValueOperand()->getType()->isIntegerTy() && v.hasC && !v.t && v.pts.empty() && p.pts.size() == 1 && p.pts.begin()->stride == 0 &&
+                 !p.unkPtr && !objs[p.pts.begin()->obj].summary && n > 0 && n <= 8)
+          mut(cur, p.pts.begin()->obj)->ic[p.pts.begin()->off] = {v.c, (int)n};
         setR = false;
       } else if (auto *G = dyn_cast<GetElementPtrInst>(&I)) {
         Val b = getV(fr, G->getPointerOperand());
